@@ -30,9 +30,12 @@ def _decode(L, model, probes):
                             "directed": [(i, j) for i in range(k) for j in range(k) if ev(D(U[i], U[j]))],
                             "undirected": [(i, j) for i in range(k) for j in range(i, k) if ev(Ur(U[i], U[j]))]}
         elif p.kind in ("digraph", "ugraph"):
-            N, E = p.syms
+            N, E = p.syms[:2]
             out[p.param] = {"kind": p.kind, "nodes": [i for i in range(k) if ev(N(U[i]))],
                             "edges": [(i, j) for i in range(k) for j in range(k) if ev(E(U[i], U[j]))]}
+            if len(p.syms) > 2:
+                out[p.param]["attrs"] = {tag: ([i for i in range(k) if ev(H(U[i]))], [i for i in range(k) if ev(Vv(U[i]))])
+                                         for tag, (H, Vv) in p.syms[2].items()}
         elif p.kind == "nodeset":
             (S,) = p.syms
             out[p.param] = {"kind": "nodeset", "members": [i for i in range(k) if ev(S(U[i]))]}
